@@ -266,8 +266,8 @@ def lost_worker(item):
         # which of the three neighbouring periods a one-time value belongs to is irrelevant for this obligation (what is saved, and when):
         # the value is taken to belong to the first candidate tried or to none (keeps the unit from forking three ways per device)
         def hotp_one(ex_, st, a, ins):
-            n_ = len([e for e in st.evs('hotp') if e['who'] == cur_who(st)]); st.ev('hotp')
-            return (z3.Bool(f'hotp.first.{cur_who(st)}') if n_ % 3 == 0 else z3.BoolVal(False), nilerr())
+            first = totpk.hotp_is_first(st, a[1])      # the period of the request itself (not +-1)
+            return (z3.Bool(f'hotp.first.{cur_who(st)}') if first else z3.BoolVal(False), nilerr())
         H.stub('github.com/pquerna/otp/hotp.ValidateCustom', hotp_one)
         def make_b(ex_, s2):
             s2.aux['reqid'] = 2
@@ -365,6 +365,7 @@ def ob_lost_update(chk, ir):
     nsched = njudged = npaths = 0; replayed = set(); per_root = []
     for (rt, counts), out in zip(todo, res):
         if out['inconclusive']: chk.obligation(f'lost-update A={rt["path"]}', '-', 'inconclusive', out['inconclusive']); continue
+        if rt.get('unit') and out['judged'] == 0: chk.obligation(f'lost-update A={rt["path"]}', '-', 'inconclusive', 'vacuous: the unit never saves after the injected request (harness or contract lost)'); continue
         nsched += out['schedules']; njudged += out['judged']; npaths += out['paths']
         per_root.append({'A': rt['path'], 'shape': counts, 'schedules': out['schedules'], 'both_saved': out['judged'], 'counterexamples': len(out['viol'])})
         chk.states += out['paths']; chk.transitions += out['transitions']; chk.queries += out['queries']; chk.solver_s += out['solver_s']; chk.functions |= set(out['functions'])
